@@ -202,6 +202,24 @@ def session(b, sch, js, rng, start_docs, slices, tid, ncalls, dom=None):
                     doc.content.find_diff_end(rng.choice(docs).content)
                     doc.can_replace(0, doc.child_count, rng.choice(docs).content)
                     doc.type.content_match.fill_before(doc.content, True)
+                    # the per-position read-only queries at every position (marks at / across a range - also with
+                    # non-inclusive marks ending inside it -, shared depth, neighbours, range_has_mark by type and instance)
+                    mts = list(sch.marks.values())
+                    for p in range(n + 1):
+                        try:
+                            rp = doc.resolve(p)
+                            rp.marks()
+                            for e in {p, min(n, p + 1), min(n, p + rng.randint(0, 6)), n}:
+                                rp.marks_across(doc.resolve(e))
+                                rp.shared_depth(e)
+                            rp.node_after, rp.node_before, rp.text_offset      # noqa: B018
+                            for mt in mts:
+                                doc.range_has_mark(p, min(n, p + 3), mt)
+                            for mk in (rp.node_after.marks if rp.node_after is not None else []):
+                                doc.range_has_mark(0, n, mk)
+                                mk.is_in_set(rp.marks())
+                        except Exception:  # noqa: BLE001 - positions inside surrogate pairs (known finding of C02); state must be intact
+                            pass
                 call(name, q)
             elif kind == "helpers":
                 name = "structure helpers"
